@@ -2,6 +2,8 @@ import Karp.Driver.Proto
 import Karp.Model.Ring
 import Karp.Spec.Window
 import Karp.Spec.HealthHistory
+import Karp.Model.PoolHealth
+import Karp.Spec.PoolHealth
 
 namespace Karp.Driver.C20
 open Lean Karp.Driver Karp.Ring
@@ -61,10 +63,95 @@ def ringOps (inp impl : Json) : Except String Resp := do
       pure (ok, if ok then "" else "items are not a permutation of the last `cap` inserted values")
   pure { model := some (jObj [("items", jArr items), ("len", jArr lens)]), spec := some specOk, why := why }
 
+/-! ### c20.pool — event scripts through the real controllers -/
+
+open Karp.PoolHealth (Ev) in
+/-- what an event of the script means for pool `a` / pool `b` -/
+def projectEv (pool : String) (ev : String) : Except String Ev :=
+  match ev with
+  | "Sa" => pure (if pool = "a" then .success else .noise)
+  | "Fa" => pure (if pool = "a" then .failure else .noise)
+  | "La" => pure (if pool = "a" then .failure else .noise)
+  | "Za" => pure (if pool = "a" then .lateFailure else .noise)
+  | "Pa" => pure (if pool = "a" then .poolEdit else .noise)
+  | "Sb" => pure (if pool = "b" then .success else .noise)
+  | "Fb" => pure (if pool = "b" then .failure else .noise)
+  | "Lb" => pure (if pool = "b" then .failure else .noise)
+  | "Zb" => pure (if pool = "b" then .lateFailure else .noise)
+  | "Pb" => pure (if pool = "b" then .poolEdit else .noise)
+  | "Xs" => pure .noise
+  | "Xf" => pure .noise
+  | "C" => pure .classEdit
+  | "R" => pure .restart
+  | "N" => pure .resync
+  | _ => .error s!"bad event {ev}"
+
+def firstDiffL (a b : List (List Nat)) (i : Nat := 0) : Option Nat :=
+  match a, b with
+  | [], [] => none
+  | x :: xs, y :: ys => if x = y then firstDiffL xs ys (i + 1) else some i
+  | _, _ => some i
+
+def obsName (xs : List Nat) : String :=
+  let c := match xs.getD 0 9 with | 0 => "Unknown" | 1 => "True" | 2 => "False" | 3 => "absent" | _ => "?"
+  let st (n : Nat) := match n with | 0 => "Unknown" | 1 => "Healthy" | 2 => "Unhealthy" | _ => "?"
+  s!"condition={c} tracker={st (xs.getD 1 9)} what-if(success)={st (xs.getD 2 9)} what-if(failure)={st (xs.getD 3 9)}"
+
+/-- the specification's observations if every late launch failure counted as TWO failed attempts
+    (the known defect); only used to classify a violation, never to judge -/
+def specObsLateTwice (s : Karp.Spec.PoolHealth.S) : List Karp.PoolHealth.Ev → List (List Nat)
+  | [] => []
+  | e :: es =>
+    let s' := match e with
+      | .lateFailure => Karp.Spec.PoolHealth.step (Karp.Spec.PoolHealth.step s .failure) .failure
+      | e => Karp.Spec.PoolHealth.step s e
+    Karp.Spec.PoolHealth.observe s' :: specObsLateTwice s' es
+
+def pool (inp impl : Json) : Except String Resp := do
+  let steps ← (← arrF inp "steps").mapM asStr
+  let one (name : String) : Except String (List (List Nat) × List (List Nat) × List (List Nat)) := do
+    let evs ← steps.mapM (projectEv name)
+    let model := Karp.PoolHealth.observe Karp.PoolHealth.Pool.started ::
+      Karp.PoolHealth.observations Karp.PoolHealth.Pool.started evs
+    let spec := Karp.Spec.PoolHealth.observe Karp.Spec.PoolHealth.S.init ::
+      Karp.Spec.PoolHealth.observations Karp.Spec.PoolHealth.S.init evs
+    let twice := Karp.Spec.PoolHealth.observe Karp.Spec.PoolHealth.S.init ::
+      specObsLateTwice Karp.Spec.PoolHealth.S.init evs
+    pure (model, spec, twice)
+  let (ma, sa, ta) ← one "a"
+  let (mb, sb, tb) ← one "b"
+  let jl (l : List (List Nat)) := jArr (l.map (fun o => jArr (o.map jNat)))
+  -- the property's verdict on what the real controllers did
+  let judge (name : String) (spec : List (List Nat)) : Except String (Bool × String) :=
+    match fldOpt impl name with
+    | none => pure (false, "implementation produced no observations (error/panic?)")
+    | some j => do
+      let got ← listOf natList j
+      match firstDiffL got spec with
+      | none => pure (true, "")
+      | some i =>
+        let ev := if i = 0 then "creation" else s!"step {i - 1} ({steps.getD (i - 1) "?"})"
+        pure (false, s!"pool {name} after {ev}: the launch window requires [{obsName (spec.getD i [])}], the controllers left [{obsName (got.getD i [])}]")
+  let (oka, whya) ← judge "a" sa
+  let (okb, whyb) ← judge "b" sb
+  -- classification of a violation: the known defect and nothing else iff what the controllers left is exactly
+  -- the specification with every late launch failure counted twice
+  let exactly (name : String) (want : List (List Nat)) : Bool :=
+    match fldOpt impl name with
+    | some j => match listOf natList j with
+      | .ok got => got == want
+      | .error _ => false
+    | none => false
+  let sig := if exactly "a" ta && exactly "b" tb then "pool:late-launch-failure-recorded-twice" else "pool"
+  pure { model := some (jObj [("a", jl ma), ("b", jl mb), ("anomalies", jArr [])]),
+         spec := some (oka && okb), why := if !oka then whya else whyb,
+         extra := if oka && okb then none else some (jObj [("signature", jStr sig)]) }
+
 def handle : Handler := fun op inp impl =>
   match op with
   | "c20.history" => history inp impl
   | "c20.ring" => ringOps inp impl
+  | "c20.pool" => pool inp impl
   | _ => .error s!"unknown op {op}"
 
 end Karp.Driver.C20
